@@ -151,8 +151,14 @@ func judgeText(text []byte) (vs []evid.Violation, o observation, ref eip712ref.V
 	return vs, o, ref
 }
 
+// lastObs/lastRef: what the most recent judgeDoc call observed (single-threaded use), so
+// that the classification does not need a second, undeclared run of the code under test.
+var lastObs observation
+var lastRef eip712ref.Verdict
+
 func judgeDoc(c DocCase) []evid.Violation {
-	vs, _, _ := judgeText(c.text())
+	vs, o, ref := judgeText(c.text())
+	lastObs, lastRef = o, ref
 	return vs
 }
 
@@ -954,16 +960,18 @@ func TestCheck(t *testing.T) {
 
 	rec.Rapid(t, "mutants", rec.N(6000, 50000), func(rt *rapid.T) {
 		text, label := genMutant(rt)
-		_, o, ref := judgeText(text)
-		cl, nt := docClasses(label, text, o, ref)
-		kDoc.Check(rt, caseOf(text), nt, cl...)
+		kDoc.CheckLazy(rt, caseOf(text), func() (bool, []string) {
+			cl, nt := docClasses(label, text, lastObs, lastRef)
+			return nt, cl
+		})
 	})
 
 	rec.Rapid(t, "arbitrary", rec.N(1500, 10000), func(rt *rapid.T) {
 		text := arbitraryJSON(rt)
-		_, o, ref := judgeText(text)
-		cl, nt := docClasses("arbitrary", text, o, ref)
-		kDoc.Check(rt, caseOf(text), nt, cl...)
+		kDoc.CheckLazy(rt, caseOf(text), func() (bool, []string) {
+			cl, nt := docClasses("arbitrary", text, lastObs, lastRef)
+			return nt, cl
+		})
 	})
 }
 
